@@ -3,25 +3,26 @@
 import json, os
 ROOT = os.path.dirname(os.path.dirname(os.path.abspath(__file__)))
 
-TV = "TLA+ spec (SecpAbs over 256-bit BigNat carriers) + TLC trace validation of recorded executions of the real code; toy-scale exhaustive TLC model checking of the same modules"
+TV = "TLA+ spec (SecpAbs / FieldAbs over 256-bit BigNat carriers, side models Link, Conc, Memo, Mem, Schedule, Mont) + TLC trace validation of recorded executions of the real code (state taken from the stored limbs where the build allows, Encode / IsIdentity / Equal as checked observers); toy-scale exhaustive TLC model checking of the same modules with named deviations; Apalache lemmas for the full-width limb idioms; inputs chosen per class of the model's case analysis and, for the word-level code, per carry site of the code read from the tree (random + z3, inputs only)"
+CARRY = " Operands that drive the carry / borrow / quotient-digit sites of the word-level functions (read from the current tree with go/ast, solved by random search and concolic z3: corpus/carry.json plus a per-run regeneration) are replayed through this property's own calls."
 CLAIMED = {
- "C01": ("4 C01", "EMultiply action: [k]P computed by the spec's own Jacobian double-and-add over BigNat and compared with the logged Encode of the receiver, for scalar classes (0, 1, 2, n-1, n-2, (n+-1)/2, 2^255, top bit set, dense, limb patterns, random) x element classes (base, random, rescaled, three identity representations, doubled); the ladder itself is model-checked exhaustively on toy curves."),
- "C02": ("4 C02", "EAdd/ESubtract/EDouble/ENegate actions via the inversion-free relation IsSum (unique solution) on every operand-relation class (independent, equal/negated in same or other representation, identity left/right/both in four representations, same x, same y, base) with every aliasing; accessor-injected projective scalings."),
- "C03": ("4 C03", "EDecode* actions: Sec1 decoders as total functions with checked square-root witnesses; product of lengths x prefixes x x-classes (0, 1, p-1, p, p+1, on-curve+p, 2^256-1, on/off curve) x y-classes x six entry points x prior receiver; receiver must be unchanged on rejection."),
- "C04": ("4 C04", "EEncode/EEncodeUncompressed/EXCoordinate/EHex/EMarshalBinary actions on elements in different projective representations (accessor rescaling) and the round trip through EDecode."),
- "C05": ("4 C05", "EEqual/EIsIdentity actions on all relation classes in both orders, before and after arithmetic and rescaling."),
- "C06": ("4 C06", "Scalar ring actions with every aliasing; Invert by its defining relation; Pow by the spec's square-and-multiply; operand classes from limb patterns and near-modulus sums/differences/products."),
- "C07": ("4 C07", "SEncode/SDecode/hex/binary actions: length classes, values around n (n, n+-k, n with one limb altered, 2^256-1), three distinct error classes, both round trips."),
- "C08": ("4 C08", "EHashToGroup/EEncodeToGroup actions: SHA-256, expand_message_xmd, hash_to_field computed in TLA+; SSWU, addition on E' and the isogeny checked by relations with unique solutions; message lengths at SHA padding boundaries, DST lengths 1..1000 incl. 255/256/257 (oversize rule), empty/nil DST must panic."),
- "C09": ("4 C09", "SHashToScalar action: OS2IP(expand_message_xmd(msg, DST, 48)) mod n computed in TLA+."),
+ "C01": ("4 C01", "EMultiply action: [k]P computed by the spec's own Jacobian double-and-add over BigNat and compared with the logged Encode of the receiver, for scalar classes (0, 1, 2, n-1, n-2, (n+-1)/2, 2^255, top bit set, dense, limb patterns, random) x element classes (base, random, rescaled, three identity representations, doubled); the ladder itself is model-checked exhaustively on toy curves." + CARRY),
+ "C02": ("4 C02", "EAdd/ESubtract/EDouble/ENegate actions via the inversion-free relation IsSum (unique solution) on every operand-relation class (independent, equal/negated in same or other representation, identity left/right/both in four representations, same x, same y, base) with every aliasing; accessor-injected projective scalings." + CARRY),
+ "C03": ("4 C03", "EDecode* actions: Sec1 decoders as total functions with checked square-root witnesses; product of lengths x prefixes x x-classes (0, 1, p-1, p, p+1, on-curve+p, 2^256-1, on/off curve) x y-classes x six entry points x prior receiver; receiver must be unchanged on rejection." + CARRY),
+ "C04": ("4 C04", "EEncode/EEncodeUncompressed/EXCoordinate/EHex/EMarshalBinary actions on elements in different projective representations (accessor rescaling) and the round trip through EDecode." + CARRY),
+ "C05": ("4 C05", "EEqual/EIsIdentity actions on all relation classes in both orders, before and after arithmetic and rescaling." + CARRY),
+ "C06": ("4 C06", "Scalar ring actions with every aliasing; Invert by its defining relation; Pow by the spec's square-and-multiply; operand classes from limb patterns and near-modulus sums/differences/products." + CARRY),
+ "C07": ("4 C07", "SEncode/SDecode/hex/binary actions: length classes, values around n (n, n+-k, n with one limb altered, 2^256-1), three distinct error classes, both round trips." + CARRY),
+ "C08": ("4 C08", "EHashToGroup/EEncodeToGroup actions: SHA-256, expand_message_xmd, hash_to_field computed in TLA+; SSWU, addition on E' and the isogeny checked by relations with unique solutions; message lengths at SHA padding boundaries, DST lengths 1..1000 incl. 255/256/257 (oversize rule), empty/nil DST must panic; DSTs at and beyond 2^16 bytes; caller buffers reused and edited in place between calls; the suite identifier; Memo.tla model-checked with its deviations."),
+ "C09": ("4 C09", "SHashToScalar action: OS2IP(expand_message_xmd(msg, DST, 48)) mod n computed in TLA+; second pass: the scalar field's 48-byte wide reduction (internal/scalar) on chosen strings incl. fold / ripple classes and strings solved for the carry sites of the conversion of b and of its multiplication by the constant 2^192 (lattice-lifted); histories that reuse and edit the caller's message / DST buffers between calls; DSTs up to 128 KiB; Memo.tla (package-level memo designs) model-checked with its deviations."),
  "C10": ("4 C10", "Random histories (40 calls) over a pool of 4 elements and 3 scalars with deliberate aliasing; the full pool is observed after every call, so frame conditions and copy independence are checked at every step; SecpAbs is additionally explored exhaustively by TLC on a toy curve."),
- "C11": ("4 C11", "FieldAbs!MSswu / MIso actions: the exported SSWU and isogeny functions called on u in {0, +-sqrt(-1/Z) (the three exceptional values), 1, p-1, small, random; both parities; g(x1) square and non-square}; the returned point of E' is checked by the inversion-free relation Sswu!IsMapOf (unique solution; equivalence with the RFC's functional definition model-checked for every u of toy fields), the isogeny by the cross-multiplied rational map and the curve equation; also on sums of mapped points."),
- "C12": ("4 C12", "FieldAbs: internal/field.Element methods as actions over a pool of 4 registers with explicit destination/source ids (aliasing), Bytes() of every register observed after every call plus a canonical-representation probe; results computed by the specification's BigNat arithmetic, Invert and SqrtRatio by their defining relations; operand classes from limb patterns, values around p, squares / non-squares, 32-byte parser inputs around p, 48-byte wide-reduction classes. The specification acts as an executable oracle here (TLA+ contributes least for this property)."),
- "C13": ("4 C13", "SEqual/SIsZero/SIsOne/SLessOrEqual/SCSelect actions; random and limb-pattern pairs; condition words 0, 1, 2, 2^32, 2^63, 2^64-1, random; nil operands."),
- "C14": ("4 C14", "SBits action: all 256 powers of two, boundary values, values produced by arithmetic."),
+ "C11": ("4 C11", "FieldAbs!MSswu / MIso actions: the exported SSWU and isogeny functions called on u in {0, +-sqrt(-1/Z) (the three exceptional values), 1, p-1, small, random; both parities; g(x1) square and non-square}; the returned point of E' is checked by the inversion-free relation Sswu!IsMapOf (unique solution; equivalence with the RFC's functional definition model-checked for every u of toy fields), the isogeny by the cross-multiplied rational map and the curve equation; also on sums of mapped points." + CARRY),
+ "C12": ("4 C12", "FieldAbs: internal/field.Element methods as actions over a pool of 4 registers with explicit destination/source ids (aliasing), Bytes() of every register observed after every call plus a canonical-representation probe; results computed by the specification's BigNat arithmetic, Invert and SqrtRatio by their defining relations; operand classes from limb patterns, values around p, squares / non-squares, 32-byte parser inputs around p, 48-byte wide-reduction classes. The specification acts as an executable oracle here (TLA+ contributes least for this property)." + CARRY),
+ "C13": ("4 C13", "SEqual/SIsZero/SIsOne/SLessOrEqual/SCSelect actions; random and limb-pattern pairs; condition words 0, 1, 2, 2^32, 2^63, 2^64-1, random; nil operands." + CARRY),
+ "C14": ("4 C14", "SBits action: all 256 powers of two, boundary values, values produced by arithmetic." + CARRY),
  "C15": ("4 C15", "Mem.tla: caller buffers and result intervals as state; Call requires every byte of every caller buffer (whole backing array, three layouts: len=cap, len<cap, interior sub-slice) unchanged and every returned slice disjoint from all caller buffers and all earlier results; Probe re-observes values after the caller scribbled over returned slices / input buffers. Element and scalar arguments are covered by the frame conditions of C10's histories."),
- "C16": ("4 C16", "2..32 goroutines (GOMAXPROCS 1/2/4/16) call the API on own receivers with shared read-only elements, scalars, message, DST (spare capacity) and encodings in a -race binary; every goroutine's history is validated by TLC against the sequential specification (each call returns its sequential result); race-detector reports become RaceReport events for which the specification has no action."),
- "C17": ("4 C17", "Link.tla: the hash registry filled by the init functions of the linked packages; the library's import closure is read from the working tree (go list -deps) and TLC enumerates every program (all sets of extra registry-filling packages); real probe programs (plain binaries) are built and run for chosen / all sets, their outcome is checked against the model's prediction and the property, their results against the RFC 9380 specification."),
+ "C16": ("4 C16", "2..32 goroutines (GOMAXPROCS 1/2/4/16) call the API on own receivers with shared read-only elements, scalars, message, DST (spare capacity) and encodings in a -race binary; every goroutine's history is validated by TLC against the sequential specification (each call returns its sequential result); race-detector reports become RaceReport events for which the specification has no action; several distinct shared values of every kind, rejected decodes in the concurrent prologue, bursts of hashing / decoding calls (identical events written once); Conc.tla and Memo.tla (one-entry package memo: none / one lock section hold; unlocked / two lock sections / keyed by reference violate) model-checked."),
+ "C17": ("4 C17", "Link.tla: the hash registry filled by the init functions of the linked packages; the library's import closure is read from the working tree (go list -deps) and TLC enumerates every program (all sets of extra registry-filling packages); real probe programs (plain binaries) are built and run for chosen / all sets, their outcome is checked against the model's prediction and the property, their results against the RFC 9380 specification. Configurations = 11 GOOS/GOARCH targets x every set of the build tags the library's own files are constrained on; the program may also re-register SHA-256 between two hashing calls (LateRegister)."),
  "C19": ("4 C19", "Schedule.tla (2-safety by self-composition: the first run of a point fixes the reference schedule, every other scalar must reproduce it exactly): every function of internal/field and internal/scalar is instrumented in a temporary copy made from the working tree (AST rewriter + overlay) and the ~79,000-entry sequence of field-level operations of Multiply is recorded for scalar classes 0, 2, 3, n-1, n-2, 2^i, 2^255, sparse, dense, word-structured, random on base / hashed / non-normalised / identity points. Only scalar-independence is demanded, not a particular schedule."),
  "C18": ("4 C18", "SRandom action over scripted entropy sources (crypto/rand.Reader swapped): blocks 0 and n force retries, every chunking of Reads, source failing at every kind of position; RandomSrc!Outcome decides result / panic."),
 }
